@@ -69,9 +69,10 @@ Eof(r) == StopAt(r.script, 1) = 0 /\ r.then = "close"
 NonAscii(s) == \E i \in 1..Len(s) : s[i] >= 128
 
 HeadersPresent(want, got) == \A i \in 1..Len(want) : \E j \in 1..Len(got) : got[j][1] = want[i][1] /\ got[j][2] = want[i][2]
-Matches(r, out) == /\ r.got = "response" /\ ~r.died
-                   /\ r.status = StatusOf(out) /\ r.rbody = BodyPart(out) /\ HeadersPresent(OtherHeaders(out), r.rheaders)
+MatchesSt(r, out, st) == /\ r.got = "response" /\ ~r.died
+                   /\ r.status = st /\ r.rbody = BodyPart(out) /\ HeadersPresent(OtherHeaders(out), r.rheaders)
 
+Matches(r, out) == MatchesSt(r, out, StatusOf(out))
 Survived(r) == ~r.died
 ResponseProblems(r) ==
   LET out == OutOf(r.script) IN
@@ -82,19 +83,21 @@ ResponseProblems(r) ==
   ELSE IF r.died /\ NonAscii(out) THEN {"NonUtf8Panics"}
   ELSE IF r.died THEN {"UNEXPLAINED:died"}
   ELSE IF OutErrOf(r.script) # out /\ Matches(r, OutErrOf(r.script)) THEN {"StderrInResponse"}
+  ELSE IF MatchesSt(r, out, 200) THEN {"UnknownStatusBecomes200"}      \* a status Humphrey's StatusCode does not list is dropped
   ELSE {"UNEXPLAINED:http-response"}
 
 Needs(r) == RequestProblems(r) \cup ResponseProblems(r)
 Unexplained(r) == {x \in Needs(r) : x \notin Dev}
 
 VARIABLES l, bad, all
-Init == l = 1 /\ bad = <<>> /\ all = <<>>
+Init == l = 1 /\ bad = <<>> /\ all = <<>> /\ RInit
 Next == /\ l <= Len(Rec)
         /\ l' = l + 1
+        /\ UNCHANGED rvars
         /\ LET nd == Needs(Rec[l]) IN
            /\ all' = Append(all, [index |-> l, n |-> Rec[l].n, needs |-> nd])
            /\ bad' = IF nd \subseteq Dev THEN bad ELSE Append(bad, l)
-Spec == Init /\ [][Next]_<<l, bad, all>>
+Spec == Init /\ [][Next]_<<l, bad, all, rd, fed>>
 
 AllExplained == (l = Len(Rec) + 1) => /\ PrintT(ToJson([records |-> Len(Rec), rejected |-> bad, needs |-> all]))
                                       /\ bad = <<>>
